@@ -5,6 +5,8 @@ import json
 from n0v import coqlit as L
 
 KEYS = ["a", "b", "c", "k1", "é", "Z", "id", "f"]
+# legal keys that look like something else to a careless tokenizer: punctuation, digits only, a signed number
+ODD_KEYS = ["line-item", "ns:tag", "$r", "@x", "2024", "0", "-1", "x.y", "#y"]
 STRS = ["", "x", "B", "a b", "1", "é", "xy", "2"]
 
 
@@ -31,7 +33,13 @@ def gen_tree(rng, depth, root=None, width=4):
         kind = "dict" if k < 0.68 else "list"
     if kind == "dict":
         keys = rng.sample(KEYS, rng.randint(0, min(width, len(KEYS))))
+        if rng.random() < 0.12:
+            keys = keys[:max(0, len(keys) - 1)] + [rng.choice(ODD_KEYS)]
+            rng.shuffle(keys)
         return {key: gen_tree(rng, depth - 1, width=width) for key in keys}
+    if rng.random() < 0.05:
+        # a long list: indexes with two digits (and last()-k with k >= 10)
+        return [gen_leaf(rng) for _ in range(rng.randint(10, 13))]
     return [gen_tree(rng, depth - 1, width=width) for _ in range(rng.randint(0, width))]
 
 
@@ -149,7 +157,8 @@ def contains_plain_dict_below_list_root(tree):
 
 SOUP = ["a", "b", "k1", "id", "f", "/", "[", "]", "*", "..", "0", "1", "2", "-", "+", "last()", "new()",
         "text()", "=", "!=", "~", '"', "'", " ", "x", "B", "[*]", "[0]", "[-1]", "[last()]", "[1]", "/a", "/b",
-        "[id=1]", "[k1~x]", "[f!=2]", "/..", "[text()=x]", "?"]
+        "[id=1]", "[k1~x]", "[f!=2]", "/..", "[text()=x]", "?",
+        "[id='']", '[k1=""]', "[f=]", "[text()!='']", "[a~]", "[id=true()]", "[k1=false()]"]
 
 
 def gen_soup(rng, maxn=8):
